@@ -140,6 +140,7 @@ func (x *Exec) doConvert(st *State, ins *ssa.Convert) {
 	case isFloat(from) && isFloat(to):
 		x.set(st, ins, v)
 	case isFloat(from) && isInteger(to):
+		x.oblige(st, "fnan", "integer conversion of a non-finite float", term.Ne(v.(VFlt).D, term.I(0)), ins.Pos())
 		r := fltTrunc(v.(VFlt))
 		if lo, hi, ok := intRange(to); ok && !r.IsConst() && x.Mode != ModeInit {
 			x.oblige(st, "conv", "float->"+typeKey(to), term.And(term.Le(lo, r), term.Le(r, hi)), ins.Pos())
